@@ -441,6 +441,28 @@ theorem C11_wildcard_synonym_pattern (d : OptDecl) (hw : d.isWildcard = true) (s
     (h, tl) ∈ d.headTails ∧ wcMatch1 (h, tl) (h ++ (body ++ tl)) = some body :=
   ⟨headTails_mem hw (Or.inr hsyn) hpat hh, wcMatch1_pattern h body tl hbody⟩
 
+/-- The primary name pattern of a wildcard option typed literally (in any letter case) is an unknown key
+("a wildcard pattern itself is not a key": `if ((*i)->is_wildcard() && wildcardvalues) return 0`). -/
+theorem C11_wildcard_name_literal_unknown (t : Table) (hd : NamesDistinct t) (d : OptDecl) (hmem : d ∈ t)
+    (hw : d.isWildcard = true) (key : Bytes) (hk : ciEq key d.name = true) : lookup t key = none := by
+  simp [lookup, find_name hd hmem hk, hw]
+
+/- Full-strength statement (FALSE on the code as it exists; open known finding C11-wildcard-literal-synonym):
+   the same for the synonym patterns —
+     ∀ t d syn key, d ∈ t → d.isWildcard → syn ∈ d.syns → ciEq key syn → lookup t key = none.
+   `FindOption` compares the key with the inline synonyms before trying `wc_match` and has no wildcard test
+   there: the literal text of a synonym pattern (or a star-less synonym) resolves to the option with NO body, and
+   by `C11_plain_key_records_under_last_body` the value is then stored on the entry addressed before. -/
+
+/-- **Counterexample.**  Option `o:*` with synonym pattern `p*`: the key `p*` (the pattern itself) resolves to
+the option, without a body — it is not "unknown" as `o:*` is. -/
+theorem C11_counterexample_literal_synonym :
+    (lookup (buildTable [{ id := 0, name := [111, 58, 42], syns := [[112, 42]], kind := .int }]) [112, 42]).map (·.2) = some none ∧
+    lookup (buildTable [{ id := 0, name := [111, 58, 42], syns := [[112, 42]], kind := .int }]) [111, 58, 42] = none := by
+  constructor
+  · decide
+  · rfl
+
 /-! ## memory safety of the tokeniser: reads bounded by the terminating NUL
 
 History: before ampl/mp 7d345ba `SkipToMatchingQuote` was `while (*s != quote) ++s; return ++s;`.
